@@ -151,8 +151,8 @@ Definition chords_have_wire : bool :=
 
 (* ================= correspondence stream ================= *)
 (* One report as the harness sent it: its bytes; whether a silence (longer than the escape timer)
-   follows it; the sequence it is the wire form of, if it was built from one; the encoding, if it was
-   built from one; the events a FRESH parser + decodeKey delivered for these bytes alone. *)
+   follows it; the sequence it is the canonical wire form of, if it was built from one; the encoding,
+   if it was built from one; the events a FRESH parser + decodeKey delivered for these bytes alone. *)
 Definition sreport := (list Z * bool * option kseq * option encoding * list event)%type.
 Definition sr_bytes (r : sreport) : list Z := match r with (b, _, _, _, _) => b end.
 Definition sr_gap (r : sreport) : bool := match r with (_, g, _, _, _) => g end.
@@ -199,15 +199,16 @@ Definition c09_stream_mismatches (cases : list stream_case) : list Z :=
             | None => false
             end
          || match sr_enc r with
-            | Some e => negb (match sr_exp r with Some s => kseq_eqb (enc_seq e) s | None => false end)
+            | Some e => negb (match sr_exp r with Some s => kseq_eqb (enc_seq e) s | None => true end)
             | None => false
             end) rs) cases.
 
 (* the property on one observation (no model involved):
    - history independence: what one parser instance delivers for the whole stream is exactly the
      concatenation of what each report delivers on its own, whatever came before it;
-   - a report built from a sequence delivers exactly that sequence, once;
-   - a report built from an encoding decodes to the key the encoding specifies. *)
+   - a report built from a sequence (its canonical wire form) delivers exactly that sequence, once;
+   - a report built from an encoding (possibly with empty fields for zeros) delivers exactly the
+     sequence of that encoding, once, and it decodes to the key the encoding specifies. *)
 Definition c09_stream_violations (cases : list stream_case) : list Z :=
   bad_indices (fun c =>
     let '(t, rs, obs) := c in
@@ -219,9 +220,10 @@ Definition c09_stream_violations (cases : list stream_case) : list Z :=
          | None => false
          end
          || match sr_enc r with
-            | Some e => match enc_spec u e with
-                        | Some k => negb (match sr_alone r with [(_, k')] => key_eqb k k' | _ => false end)
-                        | None => false
-                        end
+            | Some e => negb (match sr_alone r with
+                              | [(s', k')] => kseq_eqb (enc_seq e) s' &&
+                                              match enc_spec u e with Some k => key_eqb k k' | None => true end
+                              | _ => false
+                              end)
             | None => false
             end) rs) cases.
